@@ -77,7 +77,11 @@ class StructureMetaType(MetaType):
             and len(args[0]) == cls.__fields__[0].type.size
         ):
             # Shortcut for single char/bytes type
-            return type.__call__(cls, *args, **kwargs)
+            obj = type.__call__(cls, *args, **kwargs)
+            # The bytes are the structure's encoding as well, so keep the bookkeeping of a parse
+            object.__setattr__(obj, "_values", {cls.__fields__[0]._name: args[0]})
+            object.__setattr__(obj, "_sizes", {cls.__fields__[0]._name: len(args[0])})
+            return obj
         if not args and not kwargs:
             obj = type.__call__(cls)
             object.__setattr__(obj, "_values", {})
